@@ -10,8 +10,13 @@ X: ast inventories regenerated on every run into coq/Gen/C06Sites.v
        data_types.py (the sharing inventory behind the heap model).
 D: * OdtContent.iterate_units (real method, objects built in memory) against the Coq heap model (vm_compute);
    * observer sequences interleaved with to_json() on generated objects and on every fixture result;
-   * every fixture extracted twice in-process, in fresh processes and under >= 8 PYTHONHASHSEED values
-     (subprocess workers), per-JSON-path digests compared; input getvalue() before/after.
+   * every fixture AND every generated input extracted twice in-process, in fresh processes and under >= 8
+     PYTHONHASHSEED values (subprocess workers), per-JSON-path digests compared; input getvalue() before/after.
+     Generated inputs (gen_documents, seeded): EPUB/DOCX/ODT/HTML with repeated metadata / style / relationship
+     elements and a CRC-corrupted image member; fixtures with their first image member made unreadable; fixtures
+     with junk bytes before / after (BOM, blank line, leftover HTTP header, trailer);
+   * observer sequences also call every image / table accessor (get_bytes, ...) and run on in-memory content
+     objects holding error-placeholder images (payload None).
 """
 from __future__ import annotations
 
@@ -680,6 +685,251 @@ def cq_case(case, uv, heap_after):
     return f"({c}, {h}, {units}, {coq_list([cq_img(i) for i in heap_after])})"
 
 
+# =========================================================================================== D: generated documents
+PNG_1x1 = bytes.fromhex(
+    "89504e470d0a1a0a0000000d49484452000000010000000108060000001f15c4890000000d4944415478da63646060f80f0001050101"
+    "27183ea60000000049454e44ae426082")
+
+
+def make_zip(members, corrupt=()):
+    """members: [(name, bytes)].  Members named in `corrupt` are STORED and one payload byte is flipped afterwards,
+    so the member is listed but its CRC check fails on read ("listed but unreadable")."""
+    import zipfile
+    buf = io.BytesIO()
+    with zipfile.ZipFile(buf, "w") as z:
+        for name, data in members:
+            stored = name in corrupt or name == "mimetype"
+            z.writestr(zipfile.ZipInfo(name, date_time=(2020, 1, 1, 0, 0, 0)), data,
+                       compress_type=zipfile.ZIP_STORED if stored else zipfile.ZIP_DEFLATED)
+        infos = {i.filename: i for i in z.infolist()}
+    raw = bytearray(buf.getvalue())
+    for name in corrupt:
+        zi = infos[name]
+        off = zi.header_offset + 30 + len(zi.filename.encode("utf-8")) + len(zi.extra) + zi.file_size // 2
+        raw[off] ^= 0xFF
+    return bytes(raw)
+
+
+def recorrupt_zip(data, is_image):
+    """Copy of a ZIP container in which the first image member is listed but unreadable; None if it has none."""
+    import zipfile
+    try:
+        with zipfile.ZipFile(io.BytesIO(data)) as z:
+            names = [i.filename for i in z.infolist() if not i.is_dir()]
+            victim = next((n for n in names if is_image(n) and z.getinfo(n).file_size > 8), None)
+            if victim is None:
+                return None
+            members = [(n, z.read(n)) for n in names]
+    except Exception:  # noqa
+        return None
+    # keep `mimetype` first (ODF/EPUB)
+    members.sort(key=lambda m: m[0] != "mimetype")
+    return make_zip(members, corrupt={victim})
+
+
+def xml_esc(t):
+    return t.replace("&", "&amp;").replace("<", "&lt;").replace(">", "&gt;").replace('"', "&quot;")
+
+
+def gen_epub(rng, names):
+    subj = rng.sample(names, rng.randint(3, 6))
+    contrib = rng.sample(names, rng.randint(3, 6))
+    creators = rng.sample(names, rng.randint(2, 4))
+    dc = "".join(f"<dc:subject>{xml_esc(x)}</dc:subject>" for x in subj)
+    dc += "".join(f"<dc:contributor>{xml_esc(x)}</dc:contributor>" for x in contrib)
+    dc += "".join(f"<dc:creator>{xml_esc(x)}</dc:creator>" for x in creators)
+    opf = ('<?xml version="1.0" encoding="UTF-8"?><package xmlns="http://www.idpf.org/2007/opf" version="3.0" '
+           'unique-identifier="id"><metadata xmlns:dc="http://purl.org/dc/elements/1.1/"><dc:identifier id="id">urn:x:1'
+           '</dc:identifier><dc:title>Generated book</dc:title><dc:language>en</dc:language>' + dc + '</metadata><manifest>'
+           '<item id="c1" href="ch1.xhtml" media-type="application/xhtml+xml"/>'
+           '<item id="c2" href="ch2.xhtml" media-type="application/xhtml+xml"/>'
+           '<item id="i1" href="images/a.png" media-type="image/png"/>'
+           '<item id="i2" href="images/b.png" media-type="image/png"/>'
+           '</manifest><spine><itemref idref="c1"/><itemref idref="c2"/></spine></package>')
+    ch = lambda t, img: (f'<?xml version="1.0"?><html xmlns="http://www.w3.org/1999/xhtml"><head><title>{t}</title></head>'
+                         f'<body><h1>{t}</h1><p>{" ".join(rng.sample(names, 3))}</p><img src="images/{img}" alt="{t} pic"/></body></html>')
+    cont = ('<?xml version="1.0"?><container version="1.0" xmlns="urn:oasis:names:tc:opendocument:xmlns:container"><rootfiles>'
+            '<rootfile full-path="OEBPS/content.opf" media-type="application/oebps-package+xml"/></rootfiles></container>')
+    return make_zip([("mimetype", b"application/epub+zip"), ("META-INF/container.xml", cont.encode()),
+                     ("OEBPS/content.opf", opf.encode()), ("OEBPS/ch1.xhtml", ch("One", "a.png").encode()),
+                     ("OEBPS/ch2.xhtml", ch("Two", "b.png").encode()), ("OEBPS/images/a.png", PNG_1x1),
+                     ("OEBPS/images/b.png", PNG_1x1)], corrupt={"OEBPS/images/b.png"})
+
+
+def gen_docx(rng, names):
+    W = "http://schemas.openxmlformats.org/wordprocessingml/2006/main"
+    R = "http://schemas.openxmlformats.org/officeDocument/2006/relationships"
+    styles = rng.sample(["Heading1", "Heading2", "Title", "Quote", "ListParagraph", "Caption", "BodyText", "Subtitle",
+                         "IntenseQuote", "NoSpacing"], rng.randint(5, 9))
+    urls = [f"https://example.org/{x.replace(' ', '_')}" for x in rng.sample(names, 4)]
+    body = []
+    for i, st in enumerate(styles * 2):
+        body.append(f'<w:p><w:pPr><w:pStyle w:val="{st}"/></w:pPr><w:r><w:t>{xml_esc(rng.choice(names))} {i}</w:t></w:r></w:p>')
+    for i, u in enumerate(urls + urls[:2]):      # repeated relationship targets
+        body.append(f'<w:p><w:hyperlink r:id="rIdH{i % len(urls)}"><w:r><w:t>link {i}</w:t></w:r></w:hyperlink></w:p>')
+    for k, rid in enumerate(("rIdI1", "rIdI2")):
+        body.append('<w:p><w:r><w:drawing><wp:inline xmlns:wp="http://schemas.openxmlformats.org/drawingml/2006/wordprocessingDrawing">'
+                    f'<wp:docPr id="{k + 1}" name="Picture {k + 1}" descr="alt {k + 1}"/>'
+                    '<a:graphic xmlns:a="http://schemas.openxmlformats.org/drawingml/2006/main"><a:graphicData>'
+                    '<pic:pic xmlns:pic="http://schemas.openxmlformats.org/drawingml/2006/picture"><pic:blipFill>'
+                    f'<a:blip r:embed="{rid}"/></pic:blipFill></pic:pic></a:graphicData></a:graphic></wp:inline></w:drawing></w:r></w:p>')
+    doc = f'<?xml version="1.0"?><w:document xmlns:w="{W}" xmlns:r="{R}"><w:body>' + "".join(body) + "</w:body></w:document>"
+    rels = ['<?xml version="1.0"?><Relationships xmlns="http://schemas.openxmlformats.org/package/2006/relationships">']
+    for i, u in enumerate(urls):
+        rels.append(f'<Relationship Id="rIdH{i}" Type="{R}/hyperlink" Target="{u}" TargetMode="External"/>')
+    rels.append(f'<Relationship Id="rIdI1" Type="{R}/image" Target="media/image1.png"/>')
+    rels.append(f'<Relationship Id="rIdI2" Type="{R}/image" Target="media/image2.png"/>')
+    rels.append("</Relationships>")
+    ct = ('<?xml version="1.0"?><Types xmlns="http://schemas.openxmlformats.org/package/2006/content-types">'
+          '<Default Extension="rels" ContentType="application/vnd.openxmlformats-package.relationships+xml"/>'
+          '<Default Extension="xml" ContentType="application/xml"/><Default Extension="png" ContentType="image/png"/>'
+          '<Override PartName="/word/document.xml" ContentType="application/vnd.openxmlformats-officedocument.'
+          'wordprocessingml.document.main+xml"/></Types>')
+    top = ('<?xml version="1.0"?><Relationships xmlns="http://schemas.openxmlformats.org/package/2006/relationships">'
+           f'<Relationship Id="rId1" Type="{R}/officeDocument" Target="word/document.xml"/></Relationships>')
+    kw = ", ".join(rng.sample(names, 3))
+    core = ('<?xml version="1.0"?><cp:coreProperties xmlns:cp="http://schemas.openxmlformats.org/package/2006/metadata/'
+            'core-properties" xmlns:dc="http://purl.org/dc/elements/1.1/" xmlns:dcterms="http://purl.org/dc/terms/" '
+            'xmlns:xsi="http://www.w3.org/2001/XMLSchema-instance"><dc:title>Generated</dc:title>'
+            f'<cp:keywords>{xml_esc(kw)}</cp:keywords></cp:coreProperties>')
+    return make_zip([("[Content_Types].xml", ct.encode()), ("_rels/.rels", top.encode()), ("word/document.xml", doc.encode()),
+                     ("word/_rels/document.xml.rels", "".join(rels).encode()), ("docProps/core.xml", core.encode()),
+                     ("word/media/image1.png", PNG_1x1), ("word/media/image2.png", PNG_1x1)],
+                    corrupt={"word/media/image2.png"})
+
+
+def gen_odt(rng, names):
+    ns = ('xmlns:office="urn:oasis:names:tc:opendocument:xmlns:office:1.0" xmlns:style="urn:oasis:names:tc:opendocument:xmlns:style:1.0" '
+          'xmlns:text="urn:oasis:names:tc:opendocument:xmlns:text:1.0" xmlns:draw="urn:oasis:names:tc:opendocument:xmlns:drawing:1.0" '
+          'xmlns:xlink="http://www.w3.org/1999/xlink" xmlns:svg="urn:oasis:names:tc:opendocument:xmlns:svg-compatible:1.0" '
+          'xmlns:meta="urn:oasis:names:tc:opendocument:xmlns:meta:1.0" xmlns:dc="http://purl.org/dc/elements/1.1/"')
+    st = [f"P{i}" for i in range(1, rng.randint(5, 9))] + rng.sample(["Heading_20_1", "Text_20_body", "Caption", "Standard"], 3)
+    auto = "".join(f'<style:style style:name="{x}" style:family="paragraph"/>' for x in st)
+    paras = ['<text:h text:outline-level="1" text:style-name="Heading_20_1">Chapter</text:h>']
+    for i, x in enumerate(st):
+        paras.append(f'<text:p text:style-name="{x}">{xml_esc(rng.choice(names))} {i}</text:p>')
+    for k, img in enumerate(("a.png", "b.png")):
+        paras.append(f'<text:p><draw:frame draw:name="img{k}" svg:width="1cm" svg:height="1cm"><draw:image '
+                     f'xlink:href="Pictures/{img}"/><svg:title>t{k}</svg:title></draw:frame></text:p>')
+    content = (f'<?xml version="1.0"?><office:document-content {ns} office:version="1.2"><office:automatic-styles>{auto}'
+               f'</office:automatic-styles><office:body><office:text>{"".join(paras)}</office:text></office:body></office:document-content>')
+    styles = (f'<?xml version="1.0"?><office:document-styles {ns} office:version="1.2"><office:styles>'
+              + "".join(f'<style:style style:name="S{i}" style:family="paragraph"/>' for i in range(5))
+              + '</office:styles></office:document-styles>')
+    meta = (f'<?xml version="1.0"?><office:document-meta {ns} office:version="1.2"><office:meta><dc:title>Generated</dc:title>'
+            + "".join(f"<meta:keyword>{xml_esc(x)}</meta:keyword>" for x in rng.sample(names, 4))
+            + '</office:meta></office:document-meta>')
+    man = ('<?xml version="1.0"?><manifest:manifest xmlns:manifest="urn:oasis:names:tc:opendocument:xmlns:manifest:1.0">'
+           '<manifest:file-entry manifest:full-path="/" manifest:media-type="application/vnd.oasis.opendocument.text"/>'
+           '</manifest:manifest>')
+    return make_zip([("mimetype", b"application/vnd.oasis.opendocument.text"), ("content.xml", content.encode()),
+                     ("styles.xml", styles.encode()), ("meta.xml", meta.encode()), ("META-INF/manifest.xml", man.encode()),
+                     ("Pictures/a.png", PNG_1x1), ("Pictures/b.png", PNG_1x1)], corrupt={"Pictures/b.png"})
+
+
+def gen_html(rng, names):
+    metas = "".join(f'<meta name="keywords" content="{xml_esc(x)}">' for x in rng.sample(names, 4))
+    metas += "".join(f'<meta name="author" content="{xml_esc(x)}">' for x in rng.sample(names, 3))
+    metas += "".join(f'<link rel="alternate" href="/{i}.html">' for i in range(4))
+    body = "".join(f"<h{1 + i % 3}>{xml_esc(x)}</h{1 + i % 3}><p>{xml_esc(x)} <a href='/{i}'>l{i}</a> <a href='/{i % 2}'>again</a></p>"
+                   for i, x in enumerate(rng.sample(names, 6)))
+    return (f"<!doctype html><html lang='en'><head><title>Generated</title>{metas}</head><body>{body}"
+            "<table><tr><th>a</th><th>b</th></tr><tr><td>1</td><td>2</td></tr></table></body></html>").encode()
+
+
+IMAGE_EXT = (".png", ".jpg", ".jpeg", ".gif", ".bmp", ".emf", ".wmf", ".tif", ".tiff")
+ZIP_EXT = {".docx", ".docm", ".xlsx", ".xlsm", ".pptx", ".pptm", ".odt", ".odp", ".ods", ".odg", ".epub"}
+TEXT_EXT = {".txt", ".md", ".csv", ".tsv", ".json", ".html", ".htm", ".eml", ".rtf"}
+
+
+def gen_documents(ctx, resources, outdir):
+    """Write the generated inputs for the hash-seed / input-untouched / observer oracles:
+       gen/      documents with repeated metadata / style / relationship elements and an unreadable image member
+       corrupt/  fixtures whose first image member is listed but unreadable
+       affix/    fixtures with a few junk bytes before / after (BOM, blank line, leftover HTTP header, trailer)"""
+    rng = ctx.rng
+    names = ["Alice Adams", "Bob Brown", "Carol", "Dave D.", "Erin", "Frank", "Grace", "Heidi", "physics", "chemistry",
+             "history", "poetry", "maps", "law", "Zürich", "北京"]
+    out = {}
+    for k in range(ctx.n(2, 6)):
+        out[f"gen/book{k}.epub"] = gen_epub(rng, names)
+        out[f"gen/doc{k}.docx"] = gen_docx(rng, names)
+        out[f"gen/text{k}.odt"] = gen_odt(rng, names)
+        out[f"gen/page{k}.html"] = gen_html(rng, names)
+    by_ext = {}
+    for p in sorted(resources.rglob("*")):
+        if p.is_file() and "password" not in str(p):
+            by_ext.setdefault(p.suffix.lower(), []).append(p)
+    is_img = lambda n: n.lower().endswith(IMAGE_EXT)
+    for ext, ps in sorted(by_ext.items()):
+        ps.sort(key=lambda q: (q.stat().st_size, q.name))
+        if ext in ZIP_EXT:
+            done = 0
+            for q in ps:
+                if q.stat().st_size > 3_000_000 or done >= ctx.n(1, 3):
+                    continue
+                c = recorrupt_zip(q.read_bytes(), is_img)
+                if c is not None:
+                    out[f"corrupt/{q.stem}{ext}"] = c
+                    done += 1
+        for q in ps[: ctx.n(1, 3)]:
+            data = q.read_bytes()
+            if len(data) > 1_500_000:
+                continue
+            pre = [("bom", b"\xef\xbb\xbf"), ("blank", b"\r\n"),
+                   ("http", b"HTTP/1.1 200 OK\r\nContent-Type: application/octet-stream\r\nContent-Length: " +
+                    str(len(data)).encode() + b"\r\n\r\n")]
+            if ext not in ZIP_EXT and ext not in TEXT_EXT and ext != ".pdf":
+                pre = pre[:1]         # binary containers (OLE2, archives): one prefix variant is enough, they reject it
+            for tag, junk in pre:
+                out[f"affix/pre-{tag}__{q.stem}{ext}"] = junk + data
+            out[f"affix/post-junk__{q.stem}{ext}"] = data + b"\r\n\r\n\x00trailing junk\n"
+    for rel, data in out.items():
+        f = outdir / rel
+        f.parent.mkdir(parents=True, exist_ok=True)
+        f.write_bytes(data)
+    ctx.count("generated-inputs", len(out))
+    return sorted(out)
+
+
+def placeholder_objects():
+    """Content objects holding error-placeholder images (no payload), built in memory:
+    [(label, content object)] ; classes that cannot be built this way are returned in `skipped`."""
+    import dataclasses
+    from sharepoint2text.parsing.extractors import data_types as dt
+    objs, skipped = [], []
+
+    def mk(cls, **kw):
+        for f in dataclasses.fields(cls):
+            if f.name in kw or f.default is not dataclasses.MISSING or f.default_factory is not dataclasses.MISSING:
+                continue
+            kw[f.name] = 1 if "int" in str(f.type) else "x"
+        return cls(**kw)
+
+    def imgs(cls):
+        full = {"data": io.BytesIO(PNG_1x1)} if "BytesIO" in str({f.name: f.type for f in dataclasses.fields(cls)}.get("data")) else {}
+        return [mk(cls, error="unreadable") if any(f.name == "error" for f in dataclasses.fields(cls)) else mk(cls), mk(cls, **full)]
+
+    plans = [
+        ("DocxContent", lambda: mk(dt.DocxContent, images=imgs(dt.DocxImage), full_text="t")),
+        ("EpubContent", lambda: mk(dt.EpubContent, images=imgs(dt.EpubImage))),
+        ("OdtContent", lambda: mk(dt.OdtContent, images=imgs(dt.OpenDocumentImage), full_text="t",
+                                  paragraphs=[dt.OdtParagraph(text="t")])),
+        ("OdgContent", lambda: mk(dt.OdgContent, images=imgs(dt.OpenDocumentImage))),
+        ("OdpContent", lambda: mk(dt.OdpContent, slides=[mk(dt.OdpSlide, images=imgs(dt.OpenDocumentImage))])),
+        ("OdsContent", lambda: mk(dt.OdsContent, sheets=[mk(dt.OdsSheet, images=imgs(dt.OpenDocumentImage))])),
+        ("XlsxContent", lambda: mk(dt.XlsxContent, sheets=[mk(dt.XlsxSheet, images=imgs(dt.XlsxImage))])),
+        ("PptxContent", lambda: mk(dt.PptxContent, slides=[mk(dt.PptxSlide, images=imgs(dt.PptxImage))])),
+        ("RtfContent", lambda: mk(dt.RtfContent, images=imgs(dt.RtfImage))),
+    ]
+    for label, f in plans:
+        try:
+            objs.append((label, f()))
+        except Exception as e:  # noqa
+            skipped.append(f"{label}: {type(e).__name__}: {e}")
+    return objs, skipped
+
+
 # =========================================================================================== D: observers
 def canon(v, depth=0):
     """Canonical, address-free rendering of an observer's return value."""
@@ -708,38 +958,64 @@ def digest_json(obj):
     return hashlib.sha256(json.dumps(obj.to_json(), sort_keys=True, default=repr).encode("utf-8", "surrogatepass")).hexdigest()
 
 
+IMAGE_ACCESSORS = ("get_bytes", "get_content_type", "get_caption", "get_description", "get_metadata")
+PSEUDO = tuple("images." + a for a in IMAGE_ACCESSORS) + ("tables.get_table", "tables.get_dim")
+
+
+def all_images(obj):
+    """every image object reachable through the interface: document level and per unit"""
+    out = list(obj.iterate_images())
+    seen = {id(i) for i in out}
+    for u in obj.iterate_units():
+        for i in u.get_images():
+            if id(i) not in seen:
+                seen.add(id(i))
+                out.append(i)
+    return out
+
+
 def call_observer(obj, name):
+    """-> (canonical value, name to blame).  `images.<m>` / `tables.<m>` call accessor m on every image / table."""
+    if name.startswith("images."):
+        m = name.split(".", 1)[1]
+        ims = all_images(obj)
+        return canon([getattr(i, m)() for i in ims]), (f"{type(ims[0]).__name__}.{m}" if ims else name)
+    if name.startswith("tables."):
+        m = name.split(".", 1)[1]
+        ts = list(obj.iterate_tables())
+        return canon([getattr(t_, m)() for t_ in ts]), (f"{type(ts[0]).__name__}.{m}" if ts else name)
     r = getattr(obj, name)()
     if name.startswith("iterate_"):
         r = list(r)
         if name == "iterate_units":
             # a unit is observed through its own accessors as well
             r = [(u, u.get_text(), u.get_images(), u.get_tables(), u.get_metadata()) for u in r]
-    return canon(r)
+    return canon(r), f"{type(obj).__name__}.{name}"
 
 
 def observer_sequence_oracle(obj, seq, label):
-    """Run the observer sequence; report (observer, kind) pairs violating idempotence / purity."""
+    """Run the observer sequence; report (blamed accessor, kind) pairs violating idempotence / purity."""
     bad = []
     try:
         d0 = digest_json(obj)
     except Exception as e:  # noqa  (C05's business; nothing to compare then)
-        return [("to_json", f"raises {type(e).__name__}")]
+        return []
     first = {}
     for name in seq:
+        blame = f"{type(obj).__name__}.{name}"
         try:
-            v = call_observer(obj, name)
+            v, blame = call_observer(obj, name)
         except Exception as e:  # noqa
             v = ("raises", type(e).__name__)
         d = digest_json(obj)
         if d != d0:
             # this call wrote to the result: blame it, and start afresh (later differences are consequences)
-            bad.append((name, "changes a later to_json()"))
+            bad.append((blame, "changes a later to_json()"))
             d0 = d
             first = {}
             continue
         if name in first and first[name] != v:
-            bad.append((name, "returns a different value when called again (no write in between)"))
+            bad.append((blame, "returns a different value when called again (no write in between)"))
         first.setdefault(name, v)
     return bad
 
@@ -768,46 +1044,47 @@ def leaf_digests(j):
 
 
 def worker_main(argv):
-    """python c06.py --worker <resources-dir> <out.json> [<only-rel> ...] : extract every fixture, twice."""
+    """python c06.py --worker <out.json> <root> [<root> ...] : extract every supported file under the roots, twice."""
     import logging
     logging.disable(logging.CRITICAL)
     import warnings
     warnings.filterwarnings("ignore")
     from sharepoint2text.parsing.router import get_extractor, is_supported_file
-    root = Path(argv[0])
-    only = set(argv[2:])
     res = {}
-    for p in sorted(root.rglob("*")):
-        rel = str(p.relative_to(root))
-        if not p.is_file() or (only and rel not in only) or not is_supported_file(str(p)):
-            continue
-        data = p.read_bytes()
-        runs = []
-        for _ in range(2):
-            buf = io.BytesIO(data)
-            start = 0
-            try:
-                objs = list(get_extractor(str(p))(buf, str(p)))
-                js = [o.to_json() for o in objs]
-                kinds = [type(o).__name__ for o in objs]
-                runs.append({"ok": True, "types": kinds,
-                             "leaves": [leaf_digests(j) for j in js],
-                             "digest": hashlib.sha256(json.dumps(js, sort_keys=True, default=repr).encode("utf-8", "surrogatepass")).hexdigest()})
-            except Exception as e:  # noqa
-                runs.append({"ok": False, "types": [], "leaves": [], "digest": "EXC:" + type(e).__name__ + ":" + str(e)[:200]})
-            runs[-1]["input_same"] = (buf.getvalue() == data)
-        res[rel] = runs
-    Path(argv[1]).write_text(json.dumps(res))
+    for k, root in enumerate(Path(a) for a in argv[1:]):
+        for p in sorted(root.rglob("*")):
+            rel = ("" if k == 0 else f"@{k}/") + str(p.relative_to(root))
+            if not p.is_file() or not is_supported_file(str(p)):
+                continue
+            data = p.read_bytes()
+            runs = []
+            for _ in range(2):
+                buf = io.BytesIO(data)
+                try:
+                    objs = list(get_extractor(str(p))(buf, str(p)))
+                    js = [o.to_json() for o in objs]
+                    kinds = [type(o).__name__ for o in objs]
+                    runs.append({"ok": True, "types": kinds,
+                                 "leaves": [leaf_digests(j) for j in js],
+                                 "digest": hashlib.sha256(json.dumps(js, sort_keys=True, default=repr).encode("utf-8", "surrogatepass")).hexdigest()})
+                except Exception as e:  # noqa
+                    runs.append({"ok": False, "types": [], "leaves": [], "digest": "EXC:" + type(e).__name__ + ":" + str(e)[:200]})
+                runs[-1]["input_same"] = (buf.getvalue() == data)
+                if not runs[-1]["input_same"]:
+                    after = buf.getvalue()
+                    runs[-1]["input_after"] = {"len": len(after), "sha256": hashlib.sha256(after).hexdigest()[:16]}
+            res[rel] = runs
+    Path(argv[0]).write_text(json.dumps(res))
 
 
-def spawn_workers(ctx, seeds, resources, outdir):
+def spawn_workers(ctx, seeds, roots, outdir):
     procs = []
     for i, seed in enumerate(seeds):
         env = dict(os.environ)
         env["PYTHONHASHSEED"] = str(seed)
         out = outdir / f"w{i}.json"
         procs.append((seed, out, subprocess.Popen(
-            [sys.executable, str(Path(__file__).resolve()), "--worker", str(resources), str(out)],
+            [sys.executable, str(Path(__file__).resolve()), "--worker", str(out)] + [str(r) for r in roots],
             env=env, stdout=subprocess.PIPE, stderr=subprocess.STDOUT, text=True)))
     results = []
     for seed, out, p in procs:
@@ -976,7 +1253,14 @@ def run(ctx):
     seqs_per_obj = ctx.n(3, 12)
 
     def rand_seq():
-        return [rng.choice(OBSERVERS) for _ in range(rng.randint(2, 7))] + ["to_json"]
+        return [rng.choice(OBSERVERS + PSEUDO) for _ in range(rng.randint(2, 7))] + ["to_json"]
+
+    FIXED_SEQ = ["to_json", "images.get_bytes", "to_json", "iterate_units", "images.get_bytes", "to_json"]
+
+    def observe(o, seq, where, replay):
+        for blame, kind in observer_sequence_oracle(o, seq, where):
+            ctx.finding(f"observer-impure:{blame}", f"{blame}() {kind} ({where}, sequence {seq})",
+                        dict(replay, sequence=seq, accessor=blame, kind=kind))
 
     # the Coq witness of C06_iterate_units_mutates_refuted (Proofs.wit_c / wit_h), replayed on the real class first
     witness = {"title": "", "paragraphs": [{"text": "a", "style": None, "outline": None}], "tables": [],
@@ -984,51 +1268,71 @@ def run(ctx):
     for k, case in enumerate([witness] + infos[: ctx.n(200, 2000)]):
         c, _ = build_odt(case)
         seq = ["iterate_units", "to_json"] if k == 0 else rand_seq()
-        for name, kind in observer_sequence_oracle(c, seq, "generated"):
-            ctx.finding(f"observer-impure:OdtContent.{name}", f"OdtContent.{name}() {kind} (generated object, sequence {seq})",
-                        {"case": case, "sequence": seq, "observer": name, "kind": kind})
+        observe(c, seq, "generated OdtContent object", {"case": case})
         ctx.case(("seq", json.dumps(case, sort_keys=True), tuple(seq)), True, kind="observer-seq:generated")
-    fixtures = [p for p in sorted(resources.rglob("*")) if p.is_file() and is_supported_file(str(p))]
-    for p in fixtures:
-        rel = str(p.relative_to(resources))
+    # content objects holding error-placeholder images (payload None) next to ordinary ones
+    ph, skipped = placeholder_objects()
+    ctx.extra["placeholder_objects"] = [l for l, _ in ph]
+    ctx.obligation("placeholder-image objects constructible for >= 6 content classes", len(ph) >= 6, "; ".join(skipped))
+    for label, o in ph:
+        for seq in [FIXED_SEQ] + [rand_seq() for _ in range(seqs_per_obj)]:
+            observe(o, seq, f"in-memory {label} with a placeholder image (data=None)", {"object": label})
+            ctx.case(("seq-ph", label, tuple(seq)), True, kind="observer-seq:placeholder")
+
+    td_obj = tempfile.TemporaryDirectory(dir="/var/tmp", prefix="c06-gen-")
+    gen_root = Path(td_obj.name)
+    generated = gen_documents(ctx, resources, gen_root)
+    ctx.extra["generated_inputs"] = len(generated)
+    inputs = [(str(p.relative_to(resources)), p) for p in sorted(resources.rglob("*")) if p.is_file()]
+    inputs += [("@1/" + g, gen_root / g) for g in generated if not g.startswith("affix/")]
+    for rel, p in inputs:
+        if not is_supported_file(str(p)):
+            continue
         try:
             objs = list(get_extractor(str(p))(io.BytesIO(p.read_bytes()), str(p)))
-        except Exception:  # noqa  (encrypted / unsupported fixtures: nothing to observe)
-            ctx.count("fixture:raises")
+        except Exception:  # noqa  (encrypted / unsupported inputs: nothing to observe)
+            ctx.count("input:raises")
             continue
         for o in objs[:3]:
-            for _ in range(seqs_per_obj):
-                seq = rand_seq()
-                for name, kind in observer_sequence_oracle(o, seq, rel):
-                    ctx.finding(f"observer-impure:{type(o).__name__}.{name}",
-                                f"{type(o).__name__}.{name}() {kind} (fixture {rel}, sequence {seq})",
-                                {"fixture": rel, "sequence": seq, "observer": name, "kind": kind})
+            for seq in [FIXED_SEQ] + [rand_seq() for _ in range(seqs_per_obj - 1)]:
+                observe(o, seq, f"input {rel}", {"input": rel, "generator": "tools/props/c06.py gen_documents (seeded by VERIF_SEED)"
+                                                 if rel.startswith("@1/") else "fixture"})
                 ctx.case(("seq", rel, tuple(seq)), True, kind="observer-seq:" + type(o).__name__)
 
     mark("observer-sequences")
-    # ---- D3: same input in-process twice, fresh processes, >= 8 hash seeds
+    # ---- D3: same input in-process twice, fresh processes, >= 8 hash seeds (fixtures @0, generated inputs @1)
     seeds = [0, 0, 1, 2, 3, 7, 42, 1234, 99999, 4294967295][: ctx.n(10, 10)]
     if ctx.tier == "thorough":
         seeds += [rng.randrange(2 ** 32) for _ in range(14)]
     with tempfile.TemporaryDirectory(dir="/var/tmp") as td:
-        results = spawn_workers(ctx, seeds, resources, Path(td))
+        results = spawn_workers(ctx, seeds, [resources, gen_root], Path(td))
     ctx.obligation("workers>=8-hash-seeds", len({s for s, _ in results}) >= 8, f"only {len(results)} workers completed")
     if results:
         base_seed, base = results[0]
+
+        def input_bytes(rel):
+            f = (gen_root / rel[3:]) if rel.startswith("@1/") else (resources / rel)
+            import base64
+            if f.stat().st_size <= 300_000:
+                return {"_b64": base64.b64encode(f.read_bytes()).decode()}
+            return {"note": "large input; fixture path relative to tests/resources, or regenerate with the same VERIF_SEED", "rel": rel}
+
         for rel in sorted(base):
             r0 = base[rel][0]
+            origin = "generated input" if rel.startswith("@1/") else "fixture"
             for run_ in base[rel]:
                 if not run_["input_same"]:
-                    ctx.finding(f"input-modified:{Path(rel).suffix.lower()}", f"extracting {rel} changed the caller's BytesIO content",
-                                {"fixture": rel})
+                    ctx.finding(f"input-modified:{Path(rel).suffix.lower()}",
+                                f"extracting {origin} {rel} changed the caller's BytesIO content (now {run_.get('input_after')})",
+                                {"input": rel, "bytes": input_bytes(rel), "after": run_.get("input_after")})
             # in-process repetition (every worker)
             for seed, res in results:
                 a, b = res[rel]
                 if a["digest"] != b["digest"]:
                     for path in diff_paths(a, b) or ["<digest only>"]:
                         ctx.finding(f"nondeterministic:{path}", f"{path} differs between two extractions of the same bytes in one "
-                                    f"process (fixture {rel}, PYTHONHASHSEED={seed})",
-                                    {"fixture": rel, "path": path, "mode": "in-process twice", "hashseed": seed})
+                                    f"process ({origin} {rel}, PYTHONHASHSEED={seed})",
+                                    {"input": rel, "bytes": input_bytes(rel), "path": path, "mode": "in-process twice", "hashseed": seed})
             # across processes / seeds
             for seed, res in results[1:]:
                 a = res[rel][0]
@@ -1036,10 +1340,13 @@ def run(ctx):
                     mode = "fresh process, same PYTHONHASHSEED" if seed == base_seed else "different PYTHONHASHSEED"
                     for path in diff_paths(r0, a) or ["<digest only>"]:
                         ctx.finding(f"nondeterministic:{path}", f"{path} differs between processes ({mode}: {base_seed} vs {seed}; "
-                                    f"fixture {rel})", {"fixture": rel, "path": path, "mode": mode, "hashseeds": [base_seed, seed]})
-            ctx.case(("seeds", rel, r0["digest"]), len(results) >= 2, kind="fixture-x-seeds:" + (r0["types"][0] if r0["types"] else "raises"))
-        ctx.extra["fixtures"] = len(base)
+                                    f"{origin} {rel})", {"input": rel, "bytes": input_bytes(rel), "path": path, "mode": mode,
+                                                         "hashseeds": [base_seed, seed]})
+            ctx.case(("seeds", rel, r0["digest"]), len(results) >= 2,
+                     kind=("generated" if rel.startswith("@1/") else "fixture") + "-x-seeds:" + (r0["types"][0] if r0["types"] else "raises"))
+        ctx.extra["inputs_per_worker"] = len(base)
         ctx.extra["hash_seeds"] = [s for s, _ in results]
+    td_obj.cleanup()
 
     mark("seed-workers")
     # ---- D4: stream position/content discipline of the two modelled helpers (tie of Part C)
